@@ -148,7 +148,7 @@ def run(ctx, selftest=False):
     isa.triage(ctx, drv, t0, d0, 'c06', ['-sym', sfile, '-seed', ctx.seed], sym=cases)
 
     # 3. code -> specification: every vector handler, partial EXEC, permuted twins, duplicated lanes
-    scale = 3 if thorough else 1
+    scale = 10 if thorough else 1
     gen_args = ['-mode', 'c06', '-seed', ctx.seed, '-scale', scale]
     t1 = os.path.join(ctx.scratch, 'trace_c06.ndjson')
     st1 = isa.run_driver(ctx, drv, gen_args + ['-out', t1])
@@ -163,7 +163,13 @@ def run(ctx, selftest=False):
     ctx.cov.update({'evaluations': len(recs0) + len(recs1), 'distinct_nontrivial': nt,
                     'traces_validated_against_impl': len(recs0) + len(recs1), 'records_rejected': len(d0) + len(d1),
                     'vector_handlers_covered': len(per)})
-    ctx.cov['per_opcode'] = {k: '%s:%d' % (v['name'], v['records']) for k, v in sorted(per.items())}
+    cls = {}
+    for r in recs1:
+        if r.get('tag') in ('ref', 'lane', 'undoc'):
+            cls['%s/%s/%d' % (r['arch'], r['f'], r['op'])] = {'ref': 'full reference (also checked exactly by C03)',
+                                                             'lane': 'no exact reference: lane-wise structure only',
+                                                             'undoc': 'not defined by this architecture\'s manual: lane-wise structure only'}[r['tag']]
+    ctx.cov['per_opcode'] = {k: '%s: %d records; %s' % (v['name'], v['records'], cls.get(k, '?')) for k, v in sorted(per.items())}
     ctx.sample({'pair_excerpt': [{k: v for k, v in r.items() if k in ('arch', 'f', 'op', 'nm', 'tag', 'pair', 'id')} for r in recs1[:2]]})
 
     # 4. binding self-test
